@@ -1291,6 +1291,9 @@ size_t ZSTD_CCtx_loadDictionary_advanced(
     DEBUGLOG(4, "ZSTD_CCtx_loadDictionary_advanced (size: %u)", (U32)dictSize);
     RETURN_ERROR_IF(cctx->streamStage != zcss_init, stage_wrong,
                     "Can't load a dictionary when cctx is not in init stage.");
+    /* even by reference, a loaded dictionary is digested into a CDict allocated at the first frame */
+    RETURN_ERROR_IF(cctx->staticSize && dict != NULL && dictSize != 0, memory_allocation,
+                    "static CCtx can't allocate a CDict : reference a static CDict instead");
     ZSTD_clearAllDicts(cctx);  /* erase any previously set dictionary */
     if (dict == NULL || dictSize == 0)  /* no dictionary */
         return 0;
